@@ -32,6 +32,7 @@ import (
 //     or duplicated handling, lost datagrams),
 //   - relayed connections opened before a reload (idle, mid-transfer, half-closed) run to completion,
 //   - goroutines left after Stop.
+//
 // Each observation is one op line answered by the Lean model (Model/Config.lean); oracles are
 // computed independently of the model from the last configuration that was expected to load.
 func init() { engines["config"] = configEngine }
@@ -280,8 +281,8 @@ func parseEvents(s string) []drvEvent {
 
 type cfgTargets struct {
 	ip       string
-	echoPort int // echoes; on EOF writes "|tail" and closes
-	holdPort int // echoes; on EOF waits for release, then writes "|tail" and closes
+	echoPort int         // echoes; on EOF writes "|tail" and closes
+	holdPort int         // echoes; on EOF waits for release, then writes "|tail" and closes
 	holding  atomic.Bool // while set, the hold target keeps its tail back
 }
 
@@ -368,19 +369,19 @@ func dialAddr(addr string) string {
 // ---- the case ----
 
 type cfgCase struct {
-	r     *Rng
-	out   *Out
-	d     *cfgDriver
-	tg    *cfgTargets
-	dir   string
-	seq   int
-	cur   *cfgFile // last configuration expected to be serving (nil: none)
+	r                *Rng
+	out              *Out
+	d                *cfgDriver
+	tg               *cfgTargets
+	dir              string
+	seq              int
+	cur              *cfgFile // last configuration expected to be serving (nil: none)
 	lastPath, lastOp string
 	held             []io.Closer   // foreign sockets occupying an address for the duration of one load
 	failedAddrs      []cfgListener // addresses whose bind failed earlier: later configurations reuse them
 	retry, revert    *cfgFile      // after a bind that failed because of a foreign socket: the same file again, then back
-	saltN uint64
-	dead  bool
+	saltN            uint64
+	dead             bool
 }
 
 var cfgSecrets = []string{"s1", "s2", "s3", "s4", "", "пароль", "a b"}
